@@ -109,35 +109,39 @@ Definition d19_history : list event :=
     EDelN; EDelN; EDelR; EDelR;
     ECC 5 66 1 false; EUnmap 0 true; EDelR; ECC 5 67 1 false; ECC 0 9 1 false ].
 
-Lemma d19_refuted :
-  exists ports evs tr fin,
-    run ports world0 evs = (tr, Some fin) /\
-    (* controller 5 takes two queued addresses although it was never unmapped *)
-    assigned_targets 5 tr = [(0, true); (1, true)] /\
-    (* p1's assignment is lost: after p0 is unmapped 5 drives nothing *)
-    nth_error evs 20 = Some (ECC 5 67 1 false) /\ nth_error tr 20 = Some [] /\
-    inv_find 1 (inv_map (wn fin)) = Some (2, 5, -1, {| bmin := (0, 0); bmax := (1, 0) |}) /\
-    (* controller 0 was never assigned and drives p2 *)
+(* D19's history on the repaired code (the witness against the old functions:
+   MidiRegress.d19_refuted).  The bind of unMap p2 crosses the offer of
+   controller 5 (nocross = false) and releases nothing: 5 is not offered a
+   second time, it takes p0 only and drives it; p1 stays queued; after unMap p0
+   controller 5 is free and is offered for p1; controller 0 stays silent.  The
+   records are the abstract specification's. *)
+Lemma d19_repaired :
+  exists tr fin,
+    run d19_ports world0 d19_history = (tr, Some fin) /\
+    nocross d19_history tr = false /\
+    tr = arun d19_ports astate0 d19_history /\
+    nth_error tr 12 = Some [] /\
+    assigned_targets 5 tr = [(0, true)] /\
+    nth_error tr 17 = Some [OM {| maddr := 0; mvalue := VInt 66 |}] /\
+    nth_error tr 20 = Some [OU 5] /\
+    learnQ (wn fin) = [(1, true)] /\ chN fin = [5] /\
     assigned_targets 0 tr = [] /\
-    nth_error evs 21 = Some (ECC 0 9 1 false) /\
-    option_map msgs_of (nth_error tr 21) = Some [ {| maddr := 2; mvalue := VFloat (bi_float {| bmin := (-3, -1); bmax := (11, -2) |} 9) |} ] /\
-    quiescent evs tr = false.
+    nth_error tr 21 = Some [].
 Proof.
-  exists d19_ports, d19_history.
-  eexists. eexists.
-  split; [vm_compute; reflexivity |].
+  eexists. eexists. split; [vm_compute; reflexivity |].
+  split; [vm_compute; reflexivity |]. split; [vm_compute; reflexivity |].
   vm_compute. repeat split; reflexivity.
 Qed.
 
-(* a fully synchronous history is quiescent and does what the text says *)
+(* a fully synchronous history is nocross and does what the text says *)
 Definition sync_history : list event :=
   [ EMap 1 true; EDelR; ECC 5 64 1 false; EDelN; EDelR; ECC 5 127 1 false;
     EMap 1 false; EDelR; ECC 6 3 1 false; EDelN; EDelR; ECC 6 5 1 false;
     EUnmap 1 true; EDelR; ECC 5 1 1 false ].
 
-Lemma quiescent_nonvacuous :
+Lemma nocross_nonvacuous :
   exists tr fin, run d19_ports world0 sync_history = (tr, Some fin) /\
-    quiescent sync_history tr = true /\
+    nocross sync_history tr = true /\
     assigned_targets 5 tr = [(1, true)] /\ assigned_targets 6 tr = [(1, false)] /\
     option_map msgs_of (nth_error tr 11) =
       Some [ {| maddr := 1; mvalue := VFloat (bi_float {| bmin := (0, 0); bmax := (1, 0) |} (127 * 128 + 5)) |} ] /\
